@@ -1,0 +1,83 @@
+//go:build verif
+
+// Contracts for the document renderer of the template engine (RenderTemplateToDocument path, property C17),
+// read by /verif/engine (govc). Comments only: with or without the build tag this file adds no code.
+package document
+
+// runInfosOK: every run-info entry points to a run.
+//@ spec max0(a int) int = ite(a < 0, 0, a)
+
+//@ func (*TemplateEngine).findRunForPosition
+//@ props C17
+//@ modifies nothing
+//@ ensures (forall k int :: 0 <= k && k < len(originalRunInfos) ==> originalRunInfos[k].run != nil) && len(originalRunInfos) > 0 ==> result != nil
+//@ loop 1
+//@   invariant 0 <= #i && #i <= len(originalRunInfos) && unchangedHeap()
+//@   decreases len(originalRunInfos) - #i
+
+//@ func (*TemplateEngine).extractRunsForSegment
+//@ props C17
+//@ requires te != nil && (forall k int :: 0 <= k && k < len(originalRunInfos) ==> originalRunInfos[k].run != nil)
+//@ modifies nothing
+//@ ensures cap(result) == 0 || arr(result) >= old(allocBound())
+//@ loop 1
+//@   invariant 0 <= #i && #i <= len(originalRunInfos) && unchangedHeap() && (cap(runs) == 0 || arr(runs) >= old(allocBound()))
+//@   decreases len(originalRunInfos) - #i
+
+//@ func (*TemplateEngine).processConditionalsPreservingRuns
+//@ props C17
+//@ requires te != nil && data != nil
+//@ modifies nothing
+//@ ensures cap(result) == 0 || arr(result) >= old(allocBound())
+//@ loop 1
+//@   invariant 0 <= #i && #i <= len(runs) && unchangedHeap() && (cap(finalRuns) == 0 || arr(finalRuns) >= old(allocBound()))
+//@   decreases len(runs) - #i
+
+//@ func (*TemplateEngine).processConditionals
+//@ props C17
+//@ requires te != nil && data != nil && len(originalRunInfos) >= 1 && (forall k int :: 0 <= k && k < len(originalRunInfos) ==> originalRunInfos[k].run != nil)
+//@ modifies nothing
+//@ ensures cap(result0) == 0 || arr(result0) >= old(allocBound())
+//@ loop 1
+//@   invariant 0 <= #i && #i <= len(originalRunInfos) && unchangedHeap() && len(newRuns) == len(originalRunInfos) && arr(newRuns) >= old(allocBound())
+//@   decreases len(originalRunInfos) - #i
+
+//@ func (*TemplateEngine).replaceVariablesSequentially
+//@ props C17
+//@ requires te != nil && data != nil && len(originalRunInfos) >= 1 && (forall k int :: 0 <= k && k < len(originalRunInfos) ==> originalRunInfos[k].run != nil)
+//@ modifies nothing
+//@ ensures cap(result0) == 0 || arr(result0) >= old(allocBound())
+//@ loop 1
+//@   invariant 0 <= #i && #i <= len(varMatches) && unchangedHeap() && (cap(newRuns) == 0 || arr(newRuns) >= old(allocBound()))
+//@   invariant 0 <= currentPos && currentPos <= len(originalText)
+//@   invariant forall j int :: #i <= j && j < len(varMatches) ==> currentPos <= varMatches[j][0]
+//@   decreases len(varMatches) - #i
+
+//@ func (*TemplateEngine).processNonTableLoops
+//@ props C17
+//@ requires te != nil && data != nil
+//@ modifies nothing
+//@ loop 1
+//@   invariant 0 <= #i && #i <= len(matches) && unchangedHeap()
+//@   invariant 0 <= lastEnd && lastEnd <= len(content)
+//@   invariant forall j int :: #i <= j && j < len(matches) ==> lastEnd <= matches[j][0]
+//@   decreases len(matches) - #i
+//@ loop 2
+//@   invariant 0 <= #i && #i <= len(listData) && unchangedHeap()
+//@   decreases len(listData) - #i
+//@ loop 3
+//@   invariant unchangedHeap()
+
+// replaceVariablesInParagraph: of the memory that existed before the call exactly one location may change:
+// the run list of the paragraph it is given. Runs are rebuilt from clones; the old run array is not written.
+//@ func (*TemplateEngine).replaceVariablesInParagraph
+//@ props C17
+//@ requires te != nil && para != nil && data != nil
+//@ modifies Paragraph.Runs
+//@ ensures err == nil
+//@ ensures forall p *Paragraph :: p != para ==> p.Runs == old(p.Runs)
+//@ loop 1
+//@   invariant 0 <= #i && #i <= len(para.Runs) && unchangedHeap() && (cap(runInfos) == 0 || arr(runInfos) >= old(allocBound()))
+//@   invariant forall k int :: 0 <= k && k < len(runInfos) ==> runInfos[k].run != nil
+//@   invariant len(runInfos) == 0 ==> fullText == ""
+//@   decreases len(para.Runs) - #i
